@@ -553,15 +553,19 @@ func Run(r *fw.Run) {
 	// schedules: two clients sharing one compare-and-swap configuration, fed by forked servers or by
 	// one server at different sizes, under the controlled scheduler (engine E4, see C14)
 	if os.Getenv("VERIF_BIN") != "" {
-		cfgs := []c14.Config{{Gran: "ops", Mode: "deviations", Bound: 2, Only: nil}, {Gran: "sync", Mode: "deviations", Bound: 1, Only: nil}, {Gran: "ops", Mode: "preemptions", Bound: 1, Only: c14.Small}}
+		cfgs := []c14.Config{{Gran: "ops", Mode: "deviations", Bound: 2, Only: nil}, {Gran: "sync", Mode: "deviations", Bound: 1, Only: nil}, {Gran: "ops", Mode: "preemptions", Bound: 1, Only: c14.Small}, {Gran: "ops", Mode: "deviations", Bound: 3, Only: c14.Compact}}
 		per, tot := 20*time.Second, 30*time.Second
 		if r.Thorough() {
-			cfgs = []c14.Config{{Gran: "ops", Mode: "deviations", Bound: 3, Only: nil}, {Gran: "sync", Mode: "deviations", Bound: 2, Only: nil}, {Gran: "ops", Mode: "preemptions", Bound: 2, Only: c14.Small}}
+			cfgs = []c14.Config{{Gran: "ops", Mode: "deviations", Bound: 3, Only: nil}, {Gran: "sync", Mode: "deviations", Bound: 2, Only: nil}, {Gran: "ops", Mode: "preemptions", Bound: 2, Only: c14.Small}, {Gran: "ops", Mode: "deviations", Bound: 4, Only: c14.Compact}}
 			per, tot = 10*time.Minute, 12*time.Minute
 		}
-		r.Bounds["schedule_scenarios"] = "fork-two-clients, fork-two-clients-empty-config, same-log-different-sizes"
+		r.Bounds["schedule_scenarios"] = "fork-two-clients, fork-two-clients-empty-config, same-log-different-sizes, three-heads-one-client-h8"
 		r.Bounds["schedule_configurations"] = fmt.Sprint(cfgs)
-		c14.RunSchedules(r, scen.ForkScenarios(), cfgs, per, tot)
+		scs := scen.ForkScenarios()
+		if t, ok := scen.Find("three-heads-one-client-h8"); ok {
+			scs = append(scs, t)
+		}
+		c14.RunSchedules(r, scs, cfgs, per, tot)
 	}
 }
 
